@@ -139,14 +139,14 @@ def maybeOption (ss : List Json) : Option Json :=
 
 /-! ### adjacently tagged -/
 
-/-- per subschema: (names of the members pinned to one string, names of all members); `None` unless a plain object whose
-    `properties` and `required` have the same size -/
+/-- per subschema: (names of the members pinned to one string, names of all members); `None` unless a plain object that requires
+    exactly the members it declares (same number, every required name declared) -/
 def adjBranch (f : Nat) (j : Json) : Option (List String × List String) :=
   match getObject f j with
   | some o =>
     (match reqOf o, propsOf o with
      | some rq, some ps =>
-       if ps.length == rq.length then
+       if ps.length == rq.length && rq.all (fun r => has ps r) then
          some (ps.filterMap (fun (kv : String × Json) => (constStr kv.2).map (fun _ => kv.1)), ps.map (·.1))
        else none
      | _, _ => none)
